@@ -210,7 +210,6 @@ DoJoin ==
 (* C++: fresh linepart::array (mode "fresh") or after set(length) (mode     *)
 (* "set"), then apply() of the whole data; ps is the resulting list.       *)
 Apply(mode, ps) ==
-  /\ pos = 0 /\ parts = <<>>
   /\ parts' = ps
   /\ pos' = SumRaw(ps)
   /\ obs' = [a |-> "apply", arg |-> [mode |-> mode], exp |-> [parts |-> ProjL(ps)]]
@@ -236,7 +235,6 @@ PolyPts(ps)  == [i \in 1..Visited(ps) |-> DrawnVals(ps[i])]
 PolyEnds(ps) == [i \in 1..Visited(ps) |-> LineEnds(ps[i])]
 
 Poly(ret, ps, pts, ends) ==
-  /\ pos = 0 /\ parts = <<>>
   /\ parts' = ps
   /\ pos' = SumRaw(ps)
   /\ obs' = [a |-> "poly", arg |-> [x |-> 0],
@@ -284,8 +282,8 @@ Next ==
         /\ n = 0 => parts = <<>>          \* offering nothing is explored once
         /\ NextPart(n, PartOf(Offered(n)))
   \/ DoJoin
-  \/ \E mode \in {"fresh", "set"} : Len(data) > 0 /\ Apply(mode, ApplyResult(mode))
-  \/ /\ Len(data) > 0
+  \/ \E mode \in {"fresh", "set"} : Len(data) > 0 /\ pos = 0 /\ parts = <<>> /\ Apply(mode, ApplyResult(mode))
+  \/ /\ Len(data) > 0 /\ pos = 0 /\ parts = <<>>
      /\ LET ps == ApplyResult("set") IN
         Poly(IF SumUsr(ps) > 0 THEN "ok" ELSE "refused", ps, PolyPts(ps), PolyEnds(ps))
   \/ Len(data) = 0 /\ ranged /\ \E b \in CodeDen : \E a \in EncodeNums(b) : Encode(a, b, EncodeRet(a, b), EncodeCode(a, b))
